@@ -397,6 +397,10 @@ def mon_c06(tr, actor="A"):
     run_failed = any(e["ev"] == "hook_exit" and e.get("actor") == actor and e["hook"] == "on_run" and "Err" in str(e["out"]) for e in tr.ev)
     if already_stopping or t.state == "panicked" or start_failed or run_failed:
         return
+    # "... then runs on_stop(killed=true) as soon as the hook in progress (if any) finishes": no new
+    # idle-hook invocation is started once kill() has returned
+    new_runs = [i for i, e in enumerate(tr.ev) if i > eff and e["ev"] == "hook_enter" and e.get("actor") == actor and e["hook"] == "on_run"]
+    ex.check("C06", not new_runs, "on_run was started after kill() had returned (instead of going to on_stop when the hook in progress finished)")
     started_after = [(i, e) for i, e in tr.handled(actor) if i > eff]
     ex.check("C06", len(started_after) <= 1, "%d handlers started after kill() had returned (messages %s)" % (len(started_after), [e["msg"] for _, e in started_after]))
     if t.state == "finished":
@@ -436,6 +440,20 @@ def mon_c07(tr, actor="A", expect_alive=None):
             ex.check("C07", len(onstop) == 1 and onstop[0][1]["killed"] is False, "unreferenced actor did not run on_stop(killed=false)")
     if expect_alive is not None:
         ex.check("C07", (t.state == "running") == expect_alive, "actor task state %s, expected %s" % (t.state, "running" if expect_alive else "ended"))
+
+
+def mon_c07_work(tr, actor="A"):
+    """C07: "... the actor - unless a kill or crash intervenes - finishes the work accepted before
+    that point, runs on_stop(killed=false) and its JoinHandle resolves": the liveness half of the
+    C01 monitor, reported under C07"""
+    try:
+        mon_c01(tr, actor)
+    except Violation as e:
+        if "accepted before stop/last-drop" in e.msg or "on_stop ran" in e.msg:
+            raise Violation("C07", e.msg, e.detail)
+    t = tr.actor_task(actor)
+    if t.state == "finished" and tr.kill_requested(actor) is None and isinstance(t.result, Agg) and t.result.variant == "Completed":
+        tr.ex.check("C07", t.result.fields[1] is False, "no kill() was called but the actor reports killed=%s" % (t.result.fields[1],))
 
 
 def mon_c08(tr, actor="A"):
@@ -497,7 +515,12 @@ def mon_c09(tr, actor="A", cap=None):
                 elif key not in counted:
                     counted.add(key)
                     outstanding += 1
-            elif e["ev"] == "taken" and e["chan"] == "mailbox:" + actor:
+            elif e["ev"] == "taken" and e["chan"] == "mailbox:" + actor and e.get("what") != "msg":
+                outstanding -= 1
+            elif e["ev"] == "hook_enter" and e.get("actor") == actor and e["hook"] == "handler" and ("m", e.get("msg")) in counted:
+                # a message stops occupying the mailbox when the actor takes it up, i.e. when its
+                # handler begins (moving it into some other queue first does not free a slot)
+                counted.discard(("m", e.get("msg")))
                 outstanding -= 1
             ex.check("C09", outstanding <= cap, "%d operations accepted but not yet taken, capacity %d" % (outstanding, cap))
     # a send never waits while a slot is free: at quiescence nobody is queued while permits exist
@@ -540,6 +563,26 @@ def mon_c13(tr):
         ex.check("C13", lbl in exact_got_all, "no dead letter labelled %r for a failed %s" % (lbl, lbl))
     # operations cancelled mid-flight (still pending) must not have recorded anything either
     ex.check("C13", got == exp, "dead letters recorded %s, failed deliveries were %s" % (got, exp))
+
+
+def mon_c19_runtime(tr, actor="A"):
+    """after a tell - and never after an ask - on_tell_result is invoked exactly once with the
+    handler's return value, directly after the handler"""
+    ex = tr.ex
+    kinds = {}
+    for o in tr.ops().values():
+        if o["op"][1] == actor and o["op"][0] in ("tell", "tell_t", "tell_c", "btell", "btell_t", "ask", "ask_t", "ask_c", "bask", "bask_t"):
+            kinds[o["op"][2]] = "tell" if "tell" in o["op"][0] else "ask"
+    done = [(i, e) for i, e in tr.hook(actor, "handler", "hook_exit")]
+    exp = sorted(reply_of(e["msg"]) for _, e in done if kinds.get(e["msg"]) == "tell")
+    got = sorted(e["result"] for e in tr.ev if e["ev"] == "on_tell_result")
+    ex.check("C19", got == exp, "on_tell_result calls %s; completed tell handlers returned %s (asks: %s)" % (
+        got, exp, [e["msg"] for _, e in done if kinds.get(e["msg"]) == "ask"]))
+    for i, e in enumerate(tr.ev):
+        if e["ev"] == "on_tell_result":
+            prev = [x for x in tr.ev[:i] if x["ev"] == "hook_exit" and x.get("hook") == "handler" and x.get("actor") == actor]
+            ex.check("C19", bool(prev) and prev[-1]["out"] == e["result"] and kinds.get(prev[-1]["msg"]) == "tell",
+                     "on_tell_result(%s) does not follow the tell handler that produced it" % e["result"])
 
 
 def mon_c20(tr, actor="A"):
